@@ -168,8 +168,15 @@ def _body(tag, k):
     return ["  %d = %s line %d" % (j, tag, j) for j in range(k)]
 
 
+def _open_text(text, want):
+    return Chart.from_file(_FakeFile(text), want_tracks=want)
+
+
+_OPENER = [_open_text]          # how `route` hands the text to the library (text object / by path)
+
+
 def route(ni: int, nj: int, pi: int, crlf: bool, missing: int,
-          use_none: bool, sel0: bool, sel1: bool, sel_absent: bool, empty: int = 0) -> bool:
+          use_none: bool, sel0: bool, sel1: bool, sel_absent: bool, empty: int = 0, dup: bool = False) -> bool:
     """
     pre: 0 <= empty <= 2 and (empty == 0 or (missing == 0 and use_none and not crlf))
     pre: 0 <= ni < len(NAME_SLICE)
@@ -178,8 +185,15 @@ def route(ni: int, nj: int, pi: int, crlf: bool, missing: int,
     pre: 0 <= missing <= 3 and (missing == 0 or use_none)
     pre: NSEC >= 2 or not sel1
     pre: not use_none or not (sel0 or sel1 or sel_absent)
+    pre: not dup or (sel0 and not use_none)
     post: _
     """
+    return _route_core(ni, nj, pi, crlf, missing, use_none, sel0, sel1, sel_absent, empty, dup)
+
+
+def _route_core(ni, nj, pi, crlf, missing, use_none, sel0, sel1, sel_absent, empty, dup=False):
+    # no contract of its own: a callee with a contract is *enforced* by CrossHair while another
+    # harness (route_by_path) calls it, and a failing callee postcondition silently drops the path
     has_song, has_sync, has_events = missing != 1, missing != 2, missing != 3
     names = [NAME_SLICE[ni]]
     if NSEC >= 2:
@@ -217,13 +231,15 @@ def route(ni: int, nj: int, pi: int, crlf: bool, missing: int,
                 if cand not in names:                                # a pair that is not in the file
                     want.append(PAIR_OF[cand])
                     break
+        if dup and want:
+            want.append(want[0])        # a selection may name a pair twice (e.g. two overlapping lists concatenated)
     rec = _Rec()
     log = H.CountingLogger()
     rec.install()
     try:
         with H.patched((C, "logger", log)):
             try:
-                chart = Chart.from_file(_FakeFile(text), want_tracks=want)
+                chart = _OPENER[0](text, want)
             except ValueError:
                 return done(not (has_song and has_sync and has_events))
     finally:
@@ -261,6 +277,132 @@ def route(ni: int, nj: int, pi: int, crlf: bool, missing: int,
         if nm not in PAIR_OF:
             ok = ok and any(nm in w for w in log.warnings)
     return done(ok)
+
+
+# ---------------------------------------------------------------------------------------------
+# C06 BOM clause: Chart.from_filepath on a modelled file (documented codec / text-mode contract)
+# ---------------------------------------------------------------------------------------------
+_BOM = "\ufeff"
+
+
+def _norm_enc(e):
+    return None if e is None else str(e).lower().replace("_", "-")
+
+
+class _ModelFile:
+    """A file on disk = optional UTF-8 byte-order mark + UTF-8 bytes of `text`.  What text-mode reading
+    returns is the documented contract of `open`: codec `utf-8-sig` drops one leading BOM, `utf-8`
+    keeps it as U+FEFF; `newline=None` (universal newlines) turns CRLF into LF.  Anything else the
+    code under test asks of the file is outside the model (Poison: the harness cannot judge)."""
+
+    def __init__(self, text, bom):
+        self.text, self.bom, self.opened = text, bom, 0
+
+    def content(self, mode="r", encoding=None, newline=None, errors=None, **kw):
+        if kw or ("b" in mode) or any(c in mode for c in "wax+"):
+            raise H.Poison("file opened in a way the model does not cover: %r %r" % (mode, kw))
+        enc = _norm_enc(encoding)
+        if enc in ("utf-8-sig",):
+            t = self.text
+        elif enc in (None, "utf-8", "utf8"):
+            t = (_BOM + self.text) if self.bom else self.text
+        else:
+            raise H.Poison("encoding outside the model: %r" % (encoding,))
+        if newline is None:
+            t = t.replace("\r\n", "\n")
+        elif newline != "":
+            raise H.Poison("newline mode outside the model")
+        self.opened += 1
+        return t
+
+
+class _ModelHandle:
+    def __init__(self, t):
+        self.t = t
+
+    def read(self, *a):
+        return self.t
+
+    def readlines(self, *a):
+        return self.t.splitlines(True)
+
+    def __iter__(self):
+        return iter(self.t.splitlines(True))
+
+    def __enter__(self):
+        return self
+
+    def __exit__(self, *a):
+        return False
+
+    def close(self):
+        pass
+
+
+class _ModelPath:
+    """Path-like object for the modelled file (whatever way the library reads a path: open(path),
+    path.open(), path.read_text())."""
+
+    def __init__(self, mf):
+        self.mf = mf
+
+    def __fspath__(self):
+        return "/nonexistent/model.chart"
+
+    def open(self, mode="r", buffering=-1, encoding=None, errors=None, newline=None):
+        return _ModelHandle(self.mf.content(mode, encoding=encoding, newline=newline))
+
+    def read_text(self, encoding=None, errors=None, newline=None):
+        return self.mf.content("r", encoding=encoding, newline=newline)
+
+
+def _real_file_parse(text, bom, want):
+    """Concrete runs (replays) use a real file: real bytes, the real codec."""
+    import pathlib
+    import tempfile
+    with tempfile.TemporaryDirectory() as d:
+        pth = pathlib.Path(d) / "x.chart"
+        pth.write_bytes((b"\xef\xbb\xbf" if bom else b"") + text.encode("utf-8"))
+        return Chart.from_filepath(pth, want_tracks=want)
+
+
+def route_by_path(ni: int, pi: int, crlf: bool, bom: bool, sel0: bool, use_none: bool) -> bool:
+    """
+    pre: 0 <= ni < len(NAME_SLICE) and 0 <= pi < len(PERMS)
+    pre: not use_none or not sel0
+    post: _
+    """
+    tracing = False
+    try:
+        from crosshair.tracers import is_tracing
+        tracing = is_tracing()
+    except ImportError:
+        pass
+
+    def opener(text, want):
+        if not tracing:
+            return _real_file_parse(text, bom, want)
+        mf = _ModelFile(text, bom)
+        path = _ModelPath(mf)
+
+        def fake_open(file, mode="r", buffering=-1, encoding=None, errors=None, newline=None, **kw):
+            if file is not path:
+                raise H.Poison("open() of something else")
+            return _ModelHandle(mf.content(mode, encoding=encoding, newline=newline, **kw))
+
+        with H.patched((C, "open", fake_open)):
+            chart = Chart.from_filepath(path, want_tracks=want)
+        if mf.opened != 1:
+            raise H.Poison("the file was not read through the modelled interface exactly once")
+        return chart
+
+    _OPENER[0] = opener
+    try:
+        return _route_core(ni, 0, pi, crlf, 0, use_none, sel0, False, False, 0)
+    except RegexNotMatchError:
+        return done(False)          # e.g. the mark left in front of the first header
+    finally:
+        _OPENER[0] = _open_text
 
 
 # ---------------------------------------------------------------------------------------------
@@ -320,11 +462,13 @@ def nps(form: int, n: int, ts0: int, ts1: int, ts2: int, en0: int, en1: int, en2
     """
     pre: 0 <= form <= 5
     pre: 0 <= n <= NN
-    pre: 0 <= ts0 <= ts1 <= ts2
+    pre: ts0 >= 0 and ts1 >= 0 and ts2 >= 0
     pre: ts0 <= en0 and ts1 <= en1 and ts2 <= en2
     pre: a >= 0 and b >= 0
     post: _
     """
+    # the notes' start times are in ANY order (a section whose note lines are not tick-sorted keeps
+    # file order; the count is over all notes of the track whatever their order)
     ts, en = [ts0, ts1, ts2][:n], [en0, en1, en2][:n]
     notes = [NoteEvent(tick=i, timestamp=AbsTime(ts[i]), end_timestamp=AbsTime(en[i]),
                        note=Note.G, hopo_state=HOPOState.STRUM) for i in range(n)]
